@@ -96,10 +96,13 @@ func (h *Header) Apply(hh http.Header) {
 
 		canonicalizedName := http.CanonicalHeaderKey(h.Name)
 
-		_, ok := hh[canonicalizedName]
+		vv, ok := hh[canonicalizedName]
 
-		if ok { // key exists, replace it
-			hh[h.Name] = hh[canonicalizedName]
+		// If the requested spelling is the canonical one there is nothing to do,
+		// in particular the field must not be deleted.
+		if ok && h.Name != canonicalizedName { // key exists, replace it
+			// Keep values that may already be stored under the requested spelling.
+			hh[h.Name] = append(hh[h.Name], vv...)
 			delete(hh, canonicalizedName)
 		}
 	}
